@@ -686,8 +686,15 @@ class UniformTime(np.ndarray, TimeInterface):
         #                  np.int64(sampling_interval),dtype=np.int64)
 
         # But it's unclear whether that's really the behavior we want?
-        time = np.arange(np.int64(t0), np.int64(t0 + duration),
-                         np.int64(sampling_interval), dtype=np.int64)
+        # np.arange would derive the number of samples from a float64 quotient
+        # (one too many for some durations beyond 2**53 base units): count the
+        # multiples of the interval that fit before the duration exactly
+        if np.int64(sampling_interval) == 0:
+            raise ValueError("The sampling interval is zero in the base unit")
+        n_samples = max(0, -(-int(duration) // int(sampling_interval)))
+        time = (np.int64(t0) +
+                np.int64(sampling_interval) * np.arange(n_samples,
+                                                        dtype=np.int64))
 
         time = np.asarray(time).view(cls)
         time.time_unit = time_unit
